@@ -404,6 +404,14 @@ def run_history(history, exe, facts):
             obs = mon_c15.observed(before, rec, after)
             reset_status = obs['status']
             count('reset_status:%s/%s' % (meta['cmd'], obs['status']))
+            exp = history.get('c15_expect')
+            if exp:
+                ok = obs['status'] == exp['reset_status']
+                count('corpus_regression:%s:%s' % (exp['file'], 'ok' if ok else 'FAILED'))
+                if not ok:
+                    out['violations'].append({'monitor': 'corpus', 'detail': {
+                        'what': 'corpus regression %s: the reset job ended in %s, expected %s' % (
+                            exp['file'], obs['status'], exp['reset_status']), 'obs': obs}})
             count('commits=%d' % (10 * (len(ctxd['ids']) // 10)))
             for v in mon_c15.mon_scope(world, tr, obs, before, after):
                 out['violations'].append({'monitor': 'scope', 'detail': v})
@@ -463,14 +471,20 @@ def _worker(args):
     return r
 
 
+CORPUS_FIRST = ['manual_merge.json']      # regression of the repaired defect: listed and run before everything else
+
+
 def corpus_histories():
     d = os.path.join(core.VERIF, 'corpus', 'C15')
     res = []
     if os.path.isdir(d):
-        for f in sorted(os.listdir(d)):
-            if f.endswith('.json'):
-                h = json.load(open(os.path.join(d, f)))
-                res.append((f, h['history'] if 'history' in h else h))
+        files = [f for f in os.listdir(d) if f.endswith('.json')]
+        for f in sorted(files, key=lambda f: (CORPUS_FIRST.index(f) if f in CORPUS_FIRST else len(CORPUS_FIRST), f)):
+            j = json.load(open(os.path.join(d, f)))
+            h = dict(j['history'] if 'history' in j else j)
+            if j.get('expect'):
+                h['c15_expect'] = dict(j['expect'], file=f)
+            res.append((f, h))
     return res
 
 
